@@ -81,6 +81,19 @@ def hostile : Heap := ⟨[dictOf [("h", 1), ("q", 2)], getattrRaises, scalar "in
 /-- `h = <imposter list>; q = 5` -/
 def imposter : Heap := ⟨[dictOf [("h", 1), ("q", 2)], imposterList, scalar "int" "5"]⟩
 
+/-- an object whose `__getattribute__` raises: its class cannot be read, `isinstance` on it raises -/
+def noClass : PyObj :=
+  { PyObj.inert with
+    tyName := "Shy"
+    tyRepr := "Shy"
+    str := some "<Shy>"
+    isExc := .raises "getattribute __class__"
+    hasDict := .raises "getattribute __dict__"
+    clsName := .raises "getattribute __class__" }
+
+/-- `self = Shy(); q = 5` -/
+def selfHostile : Heap := ⟨[dictOf [("self", 1), ("q", 2)], noClass, scalar "int" "5"]⟩
+
 def frame0 : List FrameIn := [⟨0, true⟩]
 
 end Collector.Ex
